@@ -343,7 +343,7 @@ func execC13(e *Env, p *Plan) error {
 			for _, f := range op.Sub {
 				if f.K == "hang" || f.K == "slow-late" {
 					// a hung handler comes back a minute after it was called, a
-					// slow one after 30 s (the harness keeps only two handlers per
+					// slow one after 30 s (the harness keeps only five handlers per
 					// follower registered)
 					e.Sleep(time.Minute)
 					break
